@@ -5,5 +5,5 @@ CONSTANTS
   Big = @BIG@
   Nrhs = @NRHS@
   Seed = @SEED@
-INVARIANTS LuLemma SolveLemma CholLemma QrLemma LarftLemma
+INVARIANTS LuLemma SolveLemma CholLemma QrLemma LarftLemma PivotLemma
 CHECK_DEADLOCK FALSE
